@@ -7,6 +7,7 @@
  O3 bracket [x[i], x[i+1]] for the same i; root of interpolant(x) - target
  O4 linear interpolant by default and the only caller does not override
  O5 build_head_mapping averages repeated crossings per (interval, level)
+ O6 the sample arrays handed in are never changed in place (alias.py)
 """
 
 import ast
@@ -130,6 +131,11 @@ def run(ctx, chk, tier="quick"):
         chk.ob("C12.O1", True, ("spowtd/regrid.py", "<module>", 1), "%d library attribute chains resolve" % n,
                "every library attribute used exists in the installed library", key="regrid+fit_offsets|api-all")
 
+    # ---- O6: the samples handed in are read, never changed (the caller goes on using them)
+    from ..alias import read_only_arguments
+    chk.floor("functions examined for in-place changes of their array arguments",
+              read_only_arguments(ctx, chk, "C12.O6", ("regrid.regrid", "fit_offsets.build_head_mapping", "fit_offsets.get_series_time_offsets"),
+                                  "the series is the caller's: once it is rescaled in place a reported position is no longer a crossing of the caller's samples, and regridding the same series again (another step, the same step) reports crossings of y / step"), 3)
     f = ctx.func("regrid.regrid")
     flow = Flow.of(f)
     mod = f.module
@@ -403,6 +409,47 @@ def run(ctx, chk, tier="quick"):
 
     # ---- O3: bracket
     solves = [c for c in ast.walk(inner) if isinstance(c, ast.Call) and (full_call_name(mod, c) or "").endswith("brentq")]
+    # a position computed in closed form on some path (not by the root finder)
+    pos_ = y.value.elts[1]
+    closed = []
+    if isinstance(pos_, ast.Name):
+        for dn_ in (flow.reaching_defs(pos_) or ()):
+            st_ = flow.cfg.stmt_of.get(dn_)
+            v_ = getattr(st_, "value", None)
+            if v_ is not None and not any(v_ is c_ for c_ in solves):
+                closed.append((st_, v_))
+    elif not any(pos_ is c_ for c_ in solves):
+        closed.append((y, pos_))
+    for st_, v_ in closed:
+        ex_ = flow.expand(v_, keep={px, py_, pstep, ivar, tvar})
+        nm_ = {n_.id for n_ in ast.walk(ex_) if isinstance(n_, ast.Name)}
+        raw_ = [n_ for n_ in ast.walk(ex_) if isinstance(n_, ast.Subscript) and isinstance(n_.value, ast.Name) and n_.value.id == py_]
+        # the tests that select this path: a raw sample compared with the target (a grid number)
+        mixed_test = None
+        a_ = getattr(st_, "parent", None)
+        while a_ is not None and a_ is not inner:
+            if isinstance(a_, ast.If):
+                for cmp_ in ast.walk(a_.test):
+                    if isinstance(cmp_, ast.Compare) and len(cmp_.comparators) == 1:
+                        sides = [flow.expand(cmp_.left, keep={px, py_, pstep, ivar, tvar}), flow.expand(cmp_.comparators[0], keep={px, py_, pstep, ivar, tvar})]
+                        names_s = [{n_.id for n_ in ast.walk(sd_) if isinstance(n_, ast.Name)} for sd_ in sides]
+                        raws_s = [[n_ for n_ in ast.walk(sd_) if isinstance(n_, ast.Subscript) and isinstance(n_.value, ast.Name) and n_.value.id == py_] for sd_ in sides]
+                        for k_ in (0, 1):
+                            if tvar in names_s[k_] and raws_s[1 - k_] and pstep not in (names_s[0] | names_s[1]):
+                                mixed_test = (cmp_, raws_s[1 - k_][0])
+            a_ = getattr(a_, "parent", None)
+        if mixed_test is not None:
+            chk.ob("C12.O3", False, where_of(f, mixed_test[0]), "position = %s on the path selected by `%s`: the target %s is a grid number (a multiple of 1 of y / %s), %s is a sample in the units of %s" % (
+                       ast.unparse(v_)[:40], ast.unparse(mixed_test[0])[:60], tvar, pstep, ast.unparse(mixed_test[1]), py_),
+                   "target and samples on the same scale (both y / step, or both y)", key="regrid|closed-form-scale",
+                   why="for a step other than 1 a sample whose raw value equals a level NUMBER is taken for a sample on that level: the knot's abscissa is reported for a level the segment crosses elsewhere")
+        elif tvar in nm_ and raw_ and pstep not in nm_:
+            chk.ob("C12.O3", False, where_of(f, st_), "position = %s: the target %s is a grid number (a multiple of 1 of y / %s), %s is a sample in the units of %s" % (
+                       ast.unparse(v_)[:90], tvar, pstep, ast.unparse(raw_[0]), py_),
+                   "target and samples on the same scale (both y / step, or both y)", key="regrid|closed-form-scale",
+                   why="for any step other than 1 the point returned is where the segment reaches level number = y, not level number x step: it is not a crossing of a multiple of the step and can lie outside the pair")
+        else:
+            chk.indeterminate("C12.O3", where_of(f, st_), "the position is computed in closed form (%s) on some path; this rule reads positions found by brentq on the interpolant" % ast.unparse(v_)[:70])
     if len(solves) != 1:
         chk.indeterminate("C12.O3", where_of(f, inner), "expected exactly one brentq call in the target loop, found %d" % len(solves))
     else:
@@ -471,6 +518,11 @@ def run(ctx, chk, tier="quick"):
                 if isinstance(lhs, ast.Call) and isinstance(lhs.func, ast.Name) and len(lhs.args) == 1 \
                         and isinstance(lhs.args[0], ast.Name) and lhs.args[0].id == pnames[0]:
                     iv = flow.def_value(lhs.func)
+                    if iv is None:
+                        # `spline = None` on the path that uses a closed form: the interpolant is the definition that builds one
+                        vals_ = [getattr(flow.cfg.stmt_of.get(d_), "value", None) for d_ in (flow.reaching_defs(lhs.func) or ())]
+                        vals_ = [v_ for v_ in vals_ if v_ is not None and not (isinstance(v_, ast.Constant) and v_.value is None)]
+                        iv = vals_[0] if len(vals_) == 1 else None
                     if isinstance(iv, ast.Call) and (full_call_name(mod, iv) or "").endswith("interp1d"):
                         # interp1d(x, y/step, kind=interpolant)
                         try:
@@ -497,7 +549,10 @@ def run(ctx, chk, tier="quick"):
         # yielded position is the root
         pos = y.value.elts[1]
         pv = flow.def_value(pos) if isinstance(pos, ast.Name) else pos
-        chk.ob("C12.O3", pv is c, where_of(f, y), "yielded position = %s" % (ast.unparse(pv)[:80] if pv is not None else ast.unparse(pos)),
+        if closed:
+            pass
+        else:
+          chk.ob("C12.O3", pv is c, where_of(f, y), "yielded position = %s" % (ast.unparse(pv)[:80] if pv is not None else ast.unparse(pos)),
                "the brentq root", key="regrid|yield-position")
 
     # ---- O4: default interpolant, caller does not override
